@@ -212,6 +212,20 @@ def _(v):
         c = v.call(Henry(Hq, Td * u.K).get_c_at_T_and_P, T * u.K, P * pu, units=u)
         v.prove("concentration_dimension", dimv(c) == (-3, 0, 0, 0, 0, 0, 1))
         v.prove_identity("concentration_value", si(v, c), P * plain * table.scale["cu"])
+        # the class that carries units by default (its `units` default is the module's default_units), with an explicit reference temperature,
+        # and the inverse helper with units: pressure from concentration inverts concentration from pressure
+        from chempy.henry import HenryWithUnits
+        v.override_global("chempy.henry", "default_units", u)
+        T0 = v.real("T0", lo=250, hi=400)
+        hw = HenryWithUnits(Hq, Td * u.K, T0 * u.K)
+        plain0 = v.call(Henry_H_at_T, T, H, Td, T0)
+        w = v.call(hw, T * u.K)
+        v.prove("HenryWithUnits.dimension", dimv(w) == tuple(a - b for a, b in zip((-3, 0, 0, 0, 0, 0, 1), (-1, 1, -2, 0, 0, 0, 0))))
+        v.prove_identity("HenryWithUnits.same_physical_value_with_reference_temperature", si(v, w), plain0 * table.scale["cu"] / table.scale["pu"])
+        cc = v.call(hw.get_c_at_T_and_P, T * u.K, P * pu)
+        pp = v.call(hw.get_P_at_T_and_c, T * u.K, cc)
+        v.prove("HenryWithUnits.pressure_dimension", dimv(pp) == (-1, 1, -2, 0, 0, 0, 0))
+        v.prove_identity("HenryWithUnits.pressure_from_concentration_inverts", si(v, pp), P * table.scale["pu"])
     else:
         withu = v.call(Henry_H_at_T, T * u.K, H * u.mM / u.bar, Td * u.K, units=u)
         v.prove("same_physical_value", v.eq(si(v, withu, u.molar / u.pascal), float(plain) * 1e-3 / 1e5, rel=1e-9))
